@@ -243,7 +243,7 @@ func TestClient(t *testing.T) {
 	}
 	ws := make([]*worker, nw)
 	for k := range ws {
-		w := &worker{ld: ld, trs: map[string]Transport{"http": httpTransport{}}, base: map[string]*Record{}, seed: seed}
+		w := &worker{ld: ld, trs: map[string]Transport{"http": httpTransport{}, "httpcache": cacheTransport{tmp}}, base: map[string]*Record{}, seed: seed}
 		for _, sch := range []string{"file", "gzip+file"} {
 			ft, err := newFileTransport(sch, filepath.Join(tmp, fmt.Sprintf("w%d-%s", k, sch[:4])), ld)
 			if err != nil {
@@ -263,14 +263,25 @@ func TestClient(t *testing.T) {
 			for j := k; j < len(cases); j += len(ws) {
 				c := cases[j]
 				var trs []string
+				// the permanent tile cache only matters to calls that read tiles; warming it scans the tree
+				cacheable := c.Op != "cp" && c.Obj != "sct" && c.Size <= 600
 				switch {
 				case os.Getenv("VERIF_ONLY_CASE") != "":
 					trs = all
+					if cacheable {
+						trs = append(trs, "httpcache")
+					}
 				case tier == "thorough":
-					// the in-process HTTP server and one of the file schemes
+					// the in-process HTTP server and one of the file schemes; every third case also behind the cache
 					trs = []string{"http", all[1+(c.ID+int(seed))%2]}
+					if cacheable && (c.ID+int(seed))%3 == 0 {
+						trs = append(trs, "httpcache")
+					}
 				default:
 					trs = []string{all[(c.ID+int(seed))%3]}
+					if cacheable && (c.ID+int(seed))%4 == 0 {
+						trs = []string{"httpcache"}
+					}
 				}
 				w.run(ctx, c, trs)
 			}
